@@ -44,6 +44,13 @@ def generate(seed, tier='quick'):
     scn['bounce_outcomes'] = [
         {'t': rng.choice(['none', 'perm', 'temp', 'temp', 'other']),
          'lat': rng.choice([0.0, 0.01])} for _ in range(rng.randint(0, 5))]
+    if rng.random() < 0.2:
+        # one storage call fails (QueueError) while an outcome is settled
+        scn['store_faults'] = [[rng.choice(['remove', 'remove',
+                                            'set_recipients_delivered',
+                                            'increment_attempts',
+                                            'set_timestamp']),
+                                rng.randint(1, 3)]]
     return scn
 
 
@@ -98,6 +105,21 @@ def expected_bounces(scn, obs, a):
 
 
 def judge(scn, obs, world):
+    v = _judge(scn, obs, world)
+    if scn.get('store_faults'):
+        # a storage call failed: what the queue can still do for the
+        # message is limited, but it must not bounce anybody twice nor
+        # start a bounce loop
+        world.probe('storage-fault-while-settling')
+        v = [x for x in v if x['clause'] == 'C13/loop' or (
+            x['clause'] == 'C13/count' and
+            x['detail'].get('kind') == 'recipient-bounced-twice')]
+        for x in v:
+            x['detail']['storage_fault'] = True
+    return v
+
+
+def _judge(scn, obs, world):
     v = []
     be = scn['backend']
     if obs['status'] == 'cap' or obs['final'] is None:
@@ -261,6 +283,10 @@ def execute(scn, debug=False):
 
 
 def shrink_candidates(scn, clause):
+    if scn.get('store_faults'):
+        c = dict(scn)
+        del c['store_faults']
+        yield c
     for c in qc.shrink_candidates(scn, clause):
         yield c
     for key in ('bounce_none', 'bounce_headers_only'):
